@@ -147,6 +147,15 @@ anchor("grid_ratio", "d t0 t1", TSPY, ["TimeSeries.get.new_timearray", "new_time
        ("callarg", r"round", 0, 0))
 anchor("stats_n_ratio", "duration nmax statsdur", TSPY, "TimeSeries.stats", ("callarg", r"round", 0, 0), inline=[],
        rename={"t[-1] - t[0]": "duration", "(t[-1] - t[0])": "duration", "np.size(mx)": "nmax", "mx.size": "nmax", "len(mx)": "nmax"})
+# the three-point rule of `rainflow.cycles`: the ranges X, Y and the mean of Y formed from the three most recent points, and the
+# range / mean of the half cycles counted from what remains (p1 newest, p3 oldest)
+RF = "qats/fatigue/rainflow.py"
+_RFREN = {"points[-1]": "p1", "points[-2]": "p2", "points[-3]": "p3"}
+anchor("rf_x", "p1 p2 p3", RF, "cycles", ("assign", "x", 0), inline=[], rename=_RFREN)
+anchor("rf_y", "p1 p2 p3", RF, "cycles", ("assign", "y", 0), inline=[], rename=_RFREN)
+anchor("rf_m", "p1 p2 p3", RF, "cycles", ("assign", "m", 0), inline=[], rename=_RFREN)
+anchor("rf_left_range", "p1 p2", RF, "cycles", ("callarg_elt", r"half\.append", 1, 0, 0), inline=[], rename=_RFREN)
+anchor("rf_left_mean", "p1 p2", RF, "cycles", ("callarg_elt", r"half\.append", 1, 0, 1), inline=[], rename=_RFREN)
 MO = "qats/motions.py"
 for _i in range(3):
     for _j in range(3):
